@@ -114,13 +114,31 @@ fn visit(v: &Visit, st: &mut Stats) -> CaseResult {
     check_board(v, Some(st), 0)
 }
 
+pub fn check_near_legal(v: &Visit) -> CaseResult {
+    let legal: HashSet<RMove> = v.pos.legal_moves().into_iter().collect();
+    for rm in super::c04::near_legal_moves(v.pos) {
+        check_try_play(v, &legal, lmove(rm))?;
+    }
+    Ok(())
+}
+
 pub fn run(ctx: &Ctx) -> Report {
     let mut rep = Report::new(ctx);
-    rep.rule = "Boards from generated histories; for each sampled board try_play is called with ALL 64x64x7 move values on a clone: Ok exactly for reference-legal moves; on Ok the clone equals a clone advanced by play_unchecked; on Err the clone equals the original (==, hash, checkers, pinned, clocks, text). play() is called under catch_unwind with every legal move and with illegal moves (up to four legal moves with a wrong promotion field, plus six spread values per board): it must panic exactly on the illegal ones. evaluations = try_play calls; non-trivial boards as in C04.".into();
+    rep.rule = "Boards from generated histories; for each sampled board try_play is called with ALL 64x64x7 move values on a clone: Ok exactly for reference-legal moves; on Ok the clone equals a clone advanced by play_unchecked; on Err the clone equals the original (==, hash, checkers, pinned, clocks, text). play() is called under catch_unwind with every legal move and with illegal moves (up to four legal moves with a wrong promotion field, plus six spread values per board): it must panic exactly on the illegal ones. A second, focused part calls try_play only with the near-legal values (every pseudo-legal move incl. the illegal ones, king-to-own-rook candidates, promotion field varied) on EVERY position of ten times as many histories. evaluations = try_play calls; non-trivial boards as in C04.".into();
     rep.assumptions = vec!["legality is judged by the reference model, not by the library".into(), "the illegal values for play() are derived from the position hash (deterministic)".into()];
     rep.required_classes = vec!["checkers=1", "checkers=2", "own-piece-pinned", "ep-file-set", "castle-legal", "promotion-available"];
     let cases = ctx.tier.scale(24_000, 25);
     rep.add(positions(ctx, "walk", cases, (1, 3, 6), 24, visit));
+    // focused sweep: try_play on the near-legal move values of EVERY position of many more histories
+    rep.add(positions(ctx, "near-legal", ctx.tier.scale(150_000, 25), (2, 3, 7), 40, |v, st| {
+        st.eval(super::c04::near_legal_moves(v.pos).len() as u64);
+        st.count("boards-near-legal-sweep", 1);
+        ep_check_classes(v.pos, st);
+        if v.pos.in_check(v.pos.stm) || v.pos.pinned_mask() != 0 || v.pos.ep.is_some() {
+            st.nontrivial(pos_hash(v.pos) ^ 0x5555);
+        }
+        check_near_legal(v)
+    }));
     rep
 }
 
@@ -132,6 +150,7 @@ pub fn replay(m: &ReplayMap) -> CaseResult {
                 return Ok(());
             }
         }
-        check_board(v, None, 0)
+        check_board(v, None, 0)?;
+        check_near_legal(v)
     })
 }
